@@ -18,13 +18,14 @@ pub async fn on_inlay_hint_handler(
     _: CancellationToken,
 ) -> Option<Vec<InlayHint>> {
     let uri = params.text_document.uri;
-    let analysis = context.analysis().read().await;
+    // lock order: workspace_manager -> analysis
     let client_id = context
         .workspace_manager()
         .read()
         .await
         .client_config
         .client_id;
+    let analysis = context.analysis().read().await;
     inlay_hint(&analysis, analysis.get_file_id(&uri)?, client_id)
 }
 
